@@ -98,6 +98,14 @@ type GuardDecl struct {
 	Fields  []string
 }
 
+type LockInv struct {
+	PkgPath string
+	Struct  string
+	Mutex   string
+	E       SExpr
+	Src     string
+}
+
 type SharedDecl struct {
 	PkgPath string
 	Struct  string // "" for package-level var
@@ -111,6 +119,7 @@ type Contracts struct {
 	Axioms   []*Axiom
 	Guards   []*GuardDecl
 	Shared   []*SharedDecl
+	LockInvs []*LockInv
 	Pure     map[string]bool // full function string
 	PurePkg  map[string]bool
 	Imports  map[string]map[string]string // pkgpath -> alias -> import path
@@ -331,6 +340,25 @@ func (cs *Contracts) parseContractFile(path, pkgPath string) error {
 			}
 			cs.Guards = append(cs.Guards, g)
 			return
+		case "lockinv":
+			// lockinv T.mu: E   (E over `self`): holds whenever the mutex is free; assumed at acquisition, proved at release
+			i := strings.Index(rest, ":")
+			if i < 0 {
+				problem(ln, "lockinv: want `lockinv T.mu: E`")
+				return
+			}
+			tm := strings.Split(strings.TrimSpace(rest[:i]), ".")
+			if len(tm) != 2 {
+				problem(ln, "lockinv: want T.mu")
+				return
+			}
+			e, err := parseSpec(rest[i+1:])
+			if err != nil {
+				problem(ln, "%v", err)
+				return
+			}
+			cs.LockInvs = append(cs.LockInvs, &LockInv{PkgPath: pkgPath, Struct: tm[0], Mutex: tm[1], E: e, Src: strings.TrimSpace(rest[i+1:])})
+			return
 		case "shared":
 			for _, f := range strings.Split(rest, ",") {
 				f = strings.TrimSpace(f)
@@ -471,7 +499,7 @@ func (cs *Contracts) parseContractFile(path, pkgPath string) error {
 			}
 			h.Label, h.E = c.Label, c.E
 			cur.Hooks = append(cur.Hooks, h)
-		case "nopanic", "models-panics", "trusted", "deterministic", "arith-checked", "readonly-receiver":
+		case "nopanic", "models-panics", "trusted", "deterministic", "arith-checked", "readonly-receiver", "order-insensitive":
 			cur.Flags[word] = true
 		default:
 			problem(ln, "unknown clause %q", word)
